@@ -18,7 +18,12 @@ def sites(tree):
     out = []
     for f in ast.walk(tree):
         if isinstance(f, ast.FunctionDef) and f.name not in SKIP_FUNCS:
+            skip = set()
+            for d in f.decorator_list + ([f.returns] if f.returns else []) + [a.annotation for a in f.args.args + f.args.kwonlyargs if a.annotation]:
+                skip |= {id(x) for x in ast.walk(d)}
             for n in ast.walk(f):
+                if id(n) in skip or (isinstance(n, ast.Expr) and isinstance(n.value, ast.Constant)):
+                    continue
                 if isinstance(n, ast.Compare) and len(n.ops) == 1 and type(n.ops[0]) in REL:
                     out.append((f.name, n, "rel"))
                 elif isinstance(n, ast.BinOp) and type(n.op) in ARI:
@@ -132,7 +137,7 @@ def run(args):
 
 if __name__ == "__main__":
     random.seed(int(sys.argv[2]) if len(sys.argv) > 2 else 1)
-    n = int(sys.argv[1]) if len(sys.argv) > 1 else 100
+    n = 10 ** 9 if len(sys.argv) > 1 and sys.argv[1] == "all" else int(sys.argv[1]) if len(sys.argv) > 1 else 100
     src0 = MU.load_sources()
     tasks = []
     for mod in ("countmin", "heavyhitters", "hyperloglog", "hashes", "helpers"):
